@@ -10,7 +10,7 @@ use std::time::Duration;
 #[derive(Clone, Copy, PartialEq, Debug)]
 enum TS { NotStarted, At(u8), Done(usize), Panicked }
 
-struct Sched { table: u8, depth: u8, active: bool, st: Vec<TS>, go: Vec<bool> }
+struct Sched { table: u8, depth: u8, active: bool, st: Vec<TS>, go: Vec<bool>, enter: Vec<bool>, early: Vec<bool> }
 
 thread_local! { static TID: Cell<usize> = Cell::new(usize::MAX); }
 
@@ -37,11 +37,13 @@ fn call_factory(table: u8, depth: u8) -> usize {
 /// run one history; returns the observation string
 fn run_history(table: u8, depth: u8, nthreads: usize, schedule: &[usize]) -> String {
   let g = global();
-  { let mut s = g.m.lock().unwrap(); s.table = table; s.depth = depth; s.active = true; s.st = vec![TS::NotStarted; nthreads]; s.go = vec![false; nthreads]; }
+  { let mut s = g.m.lock().unwrap(); s.table = table; s.depth = depth; s.active = true; s.st = vec![TS::NotStarted; nthreads]; s.go = vec![false; nthreads]; s.enter = vec![false; nthreads]; s.early = vec![false; nthreads]; }
   let mut handles = Vec::new();
   for t in 0..nthreads {
     handles.push(std::thread::spawn(move || {
       TID.with(|c| c.set(t));
+      // the thread enters the factory only when the schedule gives it its first step (late arrivals are part of the histories)
+      { let g = global(); let mut s = g.m.lock().unwrap(); while !s.enter[t] { s = g.cv.wait(s).unwrap(); } }
       let r = std::panic::catch_unwind(|| call_factory(table, depth));
       let g = global();
       let mut s = g.m.lock().unwrap();
@@ -57,12 +59,25 @@ fn run_history(table: u8, depth: u8, nthreads: usize, schedule: &[usize]) -> Str
     true
   };
   let mut obs = String::new();
-  if !wait_all(&|s: &Sched| s.st.iter().all(|x| *x == TS::At(vh::BEFORE_CALL_ONCE))) { obs.push_str("deadlock-at-start "); }
   let code = |x: TS| -> &'static str { match x { TS::At(p) if p == vh::BEFORE_CONSTRUCT => "E", TS::At(p) if p == vh::AFTER_WRITE => "W", TS::At(p) if p == vh::AFTER_CALL_ONCE => "A", TS::Done(_) => "D", TS::Panicked => "U", _ => "?" } };
   let step = |t: usize, obs: &mut String| {
     // enabledness: a thread at its first yield point cannot be released while another thread is inside the closure
     let (cur, running_other) = { let s = g.m.lock().unwrap(); (s.st[t], s.st.iter().enumerate().any(|(u, x)| u != t && (*x == TS::At(vh::BEFORE_CONSTRUCT) || *x == TS::At(vh::AFTER_WRITE)))) };
     let finished = match cur { TS::Done(_) | TS::Panicked => true, _ => false };
+    let cur = if cur == TS::NotStarted {
+      // first step: let the thread enter the factory; it stops at the yield point in front of `call_once`
+      { let mut s = g.m.lock().unwrap(); s.enter[t] = true; g.cv.notify_all(); }
+      let ok = wait_all(&|s: &Sched| s.st[t] != TS::NotStarted);
+      let now = { let s = g.m.lock().unwrap(); s.st[t] };
+      if !ok { obs.push_str("deadlock "); return; }
+      if let TS::Done(_) = now {
+        // returned without going through `call_once` at all
+        if running_other { let mut s = g.m.lock().unwrap(); s.early[t] = true; }
+        obs.push_str(&format!("D!:{} ", vh::construction_count(table, depth)));
+        return;
+      }
+      now
+    } else { cur };
     if finished || (cur == TS::At(vh::BEFORE_CALL_ONCE) && running_other) { obs.push_str("x "); return; }
     { let mut s = g.m.lock().unwrap(); s.go[t] = true; g.cv.notify_all(); }
     let ok = wait_all(&|s: &Sched| s.st[t] != cur && !s.go[t] || match s.st[t] { TS::Done(_) | TS::Panicked => true, _ => false });
@@ -88,6 +103,7 @@ fn run_history(table: u8, depth: u8, nthreads: usize, schedule: &[usize]) -> Str
   let s = g.m.lock().unwrap();
   let addrs: Vec<usize> = s.st.iter().filter_map(|x| if let TS::Done(a) = x { Some(*a) } else { None }).collect();
   let same = addrs.len() == nthreads && addrs.iter().all(|a| *a == addrs[0] && *a != 0);
+  if s.early.iter().any(|x| *x) { obs.push_str("| EARLY-RETURN (a thread got the object while another one was still inside call_once) "); }
   obs.push_str(&format!("| final cons={} all-returned-same-object={}", vh::construction_count(table, depth), same as u8));
   drop(s);
   { let mut s = g.m.lock().unwrap(); s.active = false; }
@@ -96,7 +112,7 @@ fn run_history(table: u8, depth: u8, nthreads: usize, schedule: &[usize]) -> Str
 
 /// one batch = one process: every slot (30 layers + 29 constant tables) is used for exactly one history
 pub fn run_batch(out: &mut Out, schedules: &[(usize, Vec<usize>)]) {
-  unsafe { GLOBAL = Some(Arc::new(Global { m: Mutex::new(Sched { table: 0, depth: 0, active: false, st: vec![], go: vec![] }), cv: Condvar::new() })); }
+  unsafe { GLOBAL = Some(Arc::new(Global { m: Mutex::new(Sched { table: 0, depth: 0, active: false, st: vec![], go: vec![], enter: vec![], early: vec![] }), cv: Condvar::new() })); }
   vh::set_yield_callback(Some(callback));
   let mut slots: Vec<(u8, u8)> = (0..30u8).map(|d| (vh::TABLE_LAYERS, d)).collect();
   slots.extend((1..30u8).map(|d| (vh::TABLE_C2V, d)));
@@ -111,6 +127,7 @@ pub fn run_batch(out: &mut Out, schedules: &[(usize, Vec<usize>)]) {
     // direct oracle on the implementation
     let inp = format!("table={} depth={} threads={} schedule={:?}", table, depth, n, sched);
     if !obs.ends_with("final cons=1 all-returned-same-object=1") { out.violation("C20:history", inp.clone(), "constructed once, every thread returns the same object".into(), obs.clone()); }
+    if obs.contains("EARLY-RETURN") { out.violation("C20:history:returned-before-initialisation-completed", inp.clone(), "a caller arriving while the initialiser runs blocks until it has finished".into(), obs.clone()); }
     if obs.contains("deadlock") || obs.contains("stuck") || obs.contains("U:") { out.violation("C20:history:deadlock-or-unreachable", inp, "no deadlock, unreachable!() not reached".into(), obs); }
   }
   vh::set_yield_callback(None);
